@@ -129,7 +129,8 @@ func (n *nni) Apply() (err error) {
 
 	// The root is somwhere in the
 	// clade on the n1_2 side
-	if e1.Right() == n.n1 {
+	// or on the side of the node that moves from n2 to n1
+	if e1.Right() == n.n1 || e2.Right() == n.n2 {
 		// Reorient n1-n2 edge
 		n.n1.Edges()[n1n2index].Inverse()
 	}
@@ -205,7 +206,8 @@ func (n *nni) Undo() (err error) {
 
 	// The root is somwhere in the
 	// clade on the n1_2 side (connected to n2)
-	if e2.Right() == n.n2 {
+	// or on the side of the node that moves back from n1 to n2
+	if e2.Right() == n.n2 || e1.Right() == n.n1 {
 		// Reorient n1-n2 edge
 		n.n1.Edges()[n1n2index].Inverse()
 	}
